@@ -99,13 +99,15 @@ inductive IterKind where
 /-- What the Tracked classes do — regenerated from the real classes on every run (Gen/TrackedTable.lean).
     `listOv` / `dictOv` / `arrOv`: mutating methods resolved (along the MRO) to something else than the built-in's;
     `makeTuple`: does `TrackedValue.make` wrap a tuple value;
-    `iterUnwrapped`: (method, kind of iterable) for which a container element of the iterable is stored unwrapped. -/
+    `iterUnwrapped`: (method, kind of iterable) for which a container element of the iterable is stored unwrapped;
+    `notifyOnError`: is the object marked modified when the built-in method raised. -/
 structure Cfg where
   listOv : List LM
   dictOv : List DM
   arrOv : List LM
   makeTuple : Bool
   iterUnwrapped : List (IM × IterKind)
+  notifyOnError : Bool        -- does `tracked_method` call `_changed_()` when the built-in method raised (try/finally)
   deriving Repr, Inhabited
 
 def Cfg.wraps (cfg : Cfg) (m : IM) (k : IterKind) : Bool := !cfg.iterUnwrapped.contains (m, k)
@@ -396,34 +398,35 @@ def LMut.valid (k : Kind) : LMut → Bool
   | _ => true
 
 /-- a list mutator called on the Python object that node `t` stands for.
-    Result: the new node and whether `_changed_()` was called. An exception leaves everything as it was. -/
-def applyL (cfg : Cfg) (m : LMut) : T → Except Err (T × Bool)
+    Result: the new node and whether `_changed_()` was called.  An exception leaves the value as it was (the error carries
+    whether `_changed_()` was called nevertheless). -/
+def applyL (cfg : Cfg) (m : LMut) : T → Except (Err × Bool) (T × Bool)
   | .node .list w xs =>
       let tr := w && cfg.listOv.contains m.meth
       match lEffect (if tr then m.prep cfg else m) xs with
       | .ok xs' => .ok (.node .list w xs', tr)
-      | .error e => .error e
+      | .error e => .error (e, tr && cfg.notifyOnError)
   | .node .iarr w xs =>
       let tr := w && cfg.arrOv.contains m.meth
-      if tr && !m.valid .iarr then .error .type else
+      if tr && !m.valid .iarr then .error (.type, false) else
       match lEffect m xs with
       | .ok xs' => .ok (.node .iarr w xs', tr)
-      | .error e => .error e
+      | .error e => .error (e, tr && cfg.notifyOnError)
   | .node .sarr w xs =>
       let tr := w && cfg.arrOv.contains m.meth
-      if tr && !m.valid .sarr then .error .type else
+      if tr && !m.valid .sarr then .error (.type, false) else
       match lEffect m xs with
       | .ok xs' => .ok (.node .sarr w xs', tr)
-      | .error e => .error e
-  | _ => .error .type
+      | .error e => .error (e, tr && cfg.notifyOnError)
+  | _ => .error (.type, false)
 
-def applyD (cfg : Cfg) (m : DMut) : T → Except Err (T × Bool)
+def applyD (cfg : Cfg) (m : DMut) : T → Except (Err × Bool) (T × Bool)
   | .node .dict w xs =>
       let tr := w && cfg.dictOv.contains m.meth
       match dEffect (if tr then m.prep cfg else m) xs with
       | .ok xs' => .ok (.node .dict w xs', tr)
-      | .error e => .error e
-  | _ => .error .type
+      | .error e => .error (e, tr && cfg.notifyOnError)
+  | _ => .error (.type, false)
 
 /-! ### navigation (`obj.data['a'][0]…`; an alias is the path of the object it refers to) -/
 
@@ -437,14 +440,14 @@ def locate : Step → Kind → Items → Option Nat
   | .key s, .dict, xs => xs.findIdx? (fun p => p.1 == s)
   | .key _, _, _ => none
 
-def modAt (f : T → Except Err (T × Bool)) : List Step → T → Except Err (T × Bool)
+def modAt (f : T → Except (Err × Bool) (T × Bool)) : List Step → T → Except (Err × Bool) (T × Bool)
   | [], t => f t
-  | _ :: _, .atom _ => .error .nav
+  | _ :: _, .atom _ => .error (.nav, false)
   | s :: p, .node k w xs =>
       match locate s k xs with
-      | none => .error .nav
+      | none => .error (.nav, false)
       | some i => match xs[i]? with
-        | none => .error .nav
+        | none => .error (.nav, false)
         | some (key, c) => match modAt f p c with
           | .ok (c', n) => .ok (.node k w (xs.set i (key, c')), n)
           | .error e => .error e
@@ -484,10 +487,10 @@ def doFlush (s : St) : St := if s.dirty then { s with db := ser s.doc, dirty := 
 def step (cfg : Cfg) (s : St) : Op → St × Option Err
   | .lmut p m => match modAt (applyL cfg m) p s.doc with
       | .ok (d, n) => ({ s with doc := d, dirty := s.dirty || n }, none)
-      | .error e => (s, some e)
+      | .error (e, n) => ({ s with dirty := s.dirty || n }, some e)
   | .dmut p m => match modAt (applyD cfg m) p s.doc with
       | .ok (d, n) => ({ s with doc := d, dirty := s.dirty || n }, none)
-      | .error e => (s, some e)
+      | .error (e, n) => ({ s with dirty := s.dirty || n }, some e)
   | .read p => (s, if (getAt p s.doc).isSome then none else some .nav)
   | .touch => ({ s with dirty := true }, none)
   | .assign v => ({ s with doc := make cfg v, dirty := true }, none)
